@@ -662,6 +662,20 @@ impl C04 {
                 if !seen.insert(rank) {
                     continue;
                 }
+                // the sample-set entry point recovers dependent variables the same way: same verdict
+                if m.is_err() && seen.len() <= 2 {
+                    let mut ss = v1::Samples::default();
+                    ss.entries.push(crate::mk::samples_entry(state.clone(), vec![0, 7]));
+                    if inst.evaluate_samples(&ss).is_ok() {
+                        return (
+                            fail(
+                                "C04/graph/cyclic-or-dangling-accepted-by-evaluate-samples",
+                                format!("evaluate_samples returned a sample set although dependencies are cyclic or refer to ids without value (iteration order {order:?}): deps {deps:?}, state {:?}", sorted_state(&state)),
+                            ),
+                            seen.len(),
+                        );
+                    }
+                }
                 let r = inst.evaluate(&state);
                 match (&m, r) {
                     (Err(_), Ok((sol, _))) => {
